@@ -42,19 +42,19 @@ func (m *collection) statsSegmentsLOCKED(rv *CollectionStats) {
 	var sssClean *SegmentStackStats
 
 	if m.stackDirtyTop != nil {
-		sssDirtyTop = m.stackDirtyTop.Stats()
+		sssDirtyTop = m.stackDirtyTop.statsWithChildren()
 	}
 
 	if m.stackDirtyMid != nil {
-		sssDirtyMid = m.stackDirtyMid.Stats()
+		sssDirtyMid = m.stackDirtyMid.statsWithChildren()
 	}
 
 	if m.stackDirtyBase != nil {
-		sssDirtyBase = m.stackDirtyBase.Stats()
+		sssDirtyBase = m.stackDirtyBase.statsWithChildren()
 	}
 
 	if m.stackClean != nil {
-		sssClean = m.stackClean.Stats()
+		sssClean = m.stackClean.statsWithChildren()
 	}
 
 	sssDirty := &SegmentStackStats{}
@@ -89,6 +89,17 @@ func (m *collection) statsSegmentsLOCKED(rv *CollectionStats) {
 		rv.CurCleanBytes = sssClean.CurBytes
 		rv.CurCleanSegments = sssClean.CurSegments
 	}
+}
+
+// statsWithChildren returns the stats for this segment stack plus
+// those of its child collection segment stacks, recursively, so that
+// mutations of child collections show up in the collection's gauges.
+func (ss *segmentStack) statsWithChildren() *SegmentStackStats {
+	rv := ss.Stats()
+	for _, childSegStack := range ss.childSegStacks {
+		childSegStack.statsWithChildren().AddTo(rv)
+	}
+	return rv
 }
 
 // AtomicCopyTo copies stats from s to r (from source to result).
